@@ -234,6 +234,37 @@ func OptRDNSS(lifetime uint32, servers ...netip.Addr) NDOption {
 	return NDOption{Type: 25, Data: d}
 }
 
+// OptDNSSL is the DNS search list option (RFC 8106): domain names as DNS labels, zero padded.
+func OptDNSSL(lifetime uint32, domains ...string) NDOption {
+	d := make([]byte, 6)
+	binary.BigEndian.PutUint32(d[2:6], lifetime)
+	for _, dom := range domains {
+		lbl := ""
+		for i := 0; i <= len(dom); i++ {
+			if i == len(dom) || dom[i] == '.' {
+				d = append(d, byte(len(lbl)))
+				d = append(d, lbl...)
+				lbl = ""
+			} else {
+				lbl += string(dom[i])
+			}
+		}
+		d = append(d, 0)
+	}
+	return NDOption{Type: 31, Data: d}
+}
+
+// OptRouteInfo is the route information option (RFC 4191) with a full 16-byte prefix.
+func OptRouteInfo(pfx netip.Prefix, prf byte, lifetime uint32) NDOption {
+	d := make([]byte, 22)
+	d[0] = byte(pfx.Bits())
+	d[1] = (prf & 3) << 3
+	binary.BigEndian.PutUint32(d[2:6], lifetime)
+	a := pfx.Addr().As16()
+	copy(d[6:22], a[:])
+	return NDOption{Type: 24, Data: d}
+}
+
 func NS(target netip.Addr, opts []NDOption) []byte {
 	b := make([]byte, 20)
 	t := target.As16()
